@@ -2,7 +2,7 @@
 # usage: seedrun.sh <patch.diff> <ID> [ID...]
 # Applies a seeded change to /repo's working tree, runs the named quick checks, and undoes the change
 # straight afterwards (also on interruption). Prints one line per check: DETECTED / missed / harness-error.
-patch=$1; shift
+patch=$(readlink -f "$1"); shift
 [ -f "$patch" ] || { echo "no patch $patch"; exit 2; }
 if [ -n "$(git -C /repo status --porcelain)" ]; then echo "/repo working tree is not clean"; exit 2; fi
 restore() { git -C /repo checkout -- . ; git -C /repo clean -fdq -- . 2>/dev/null; }
